@@ -109,6 +109,12 @@ def crop_rows(rng):
         kind = rng.random()
         if kind < 0.15:
             rows.append((c, t, float('nan'), 0))
+        elif kind < 0.22:
+            # a measurement with unused higher slots reported as NaN (accepted input: typed hits with NaN)
+            rows.append((c, t, float(rng.choice([max(0, lim - 500), lim + 200])), 1))
+            rows.append((c, t, float('nan'), 2))
+            if rng.random() < 0.5:
+                rows.append((c, t, float('nan'), 3))
         elif kind < 0.3:
             rows.append((c, t, float(rng.choice([lim, lim + 1, max(0, lim - 1), lim + 5000])), -1))
         else:
@@ -150,6 +156,29 @@ def bundle_rows(rng):
     return rows, prms
 
 
+def drift_rows(rng):
+    """A steadily drifting layer (cut in several height slices that overlap: non-isolated slices, bundles) next
+    to a well separated flat one; hits of several types at the same time stamp inside the bundle."""
+    n = rng.choice([24, 34, 50])
+    slope = rng.choice([-12.0, -9.0, 11.0, 15.0])
+    base = rng.choice([3000, 7100, 1500])
+    names = ['0', '1'][:rng.choice([1, 2])]
+    rows = []
+    for i in range(n):
+        t = -900.0 + 900.0 / n * i
+        for c in names:
+            h = base + slope * i + rng.choice([0, 3, -4, 17]) + 25.0 * int(c)
+            hs = [h] + ([h + rng.choice([60, 140])] if rng.random() < 0.25 else []) + ([base + 6000.0] if rng.random() < 0.4 else [])
+            for k_, y in enumerate(sorted(hs)):
+                rows.append((c, t, float(y), k_ + 1))
+    prms = {}
+    if rng.random() < 0.5:
+        prms['GROUPING_PRMS'] = {'height_scale_range': rng.choice([[500, 100], [100, 500], [300, 50]])}
+    if rng.random() < 0.3:
+        prms['MSA'] = base + 9000
+    return rows, prms
+
+
 def gen_scene(seed, k, family):
     rng = random.Random(f'{seed}:{family}:{k}')
     meta = {'family': family, 'k': k}
@@ -166,6 +195,8 @@ def gen_scene(seed, k, family):
         rows, prms = many_slices_rows(rng)
     elif family == 'bundle':
         rows, prms = bundle_rows(rng)
+    elif family == 'drift':
+        rows, prms = drift_rows(rng)
     else:
         raise ValueError(family)
     return rows, prms, meta
@@ -219,8 +250,8 @@ def _work(args):
     return out
 
 
-FAMILIES = (('synth', 0.3), ('exact', 0.1), ('degenerate', 0.08), ('multi', 0.07), ('chain', 0.15), ('split', 0.15),
-            ('crop', 0.1), ('bundle', 0.04), ('manyslices', 0.01))
+FAMILIES = (('synth', 0.27), ('exact', 0.08), ('degenerate', 0.08), ('multi', 0.07), ('chain', 0.14), ('split', 0.14),
+            ('crop', 0.11), ('bundle', 0.04), ('drift', 0.06), ('manyslices', 0.01))
 
 
 def run_pipeline(chk, prop, n_scenes, families=FAMILIES, crash_is_violation=False):
